@@ -171,8 +171,14 @@ class WrapperModel(Model):
         if f[1] in ('collections.Counter',):
             self.stdlib_counter = True       # its update() ADDS counts (dict.update would set them)
             return True
-        if ln in self.module.classes_by_name:
-            ci = self.module.classes_by_name[ln][0]
+        cands = self.module.classes_by_name.get(ln, [])
+        if not cands and ln in self.module.imports and getattr(self.module, 'repo', None) is not None:
+            # one definition shared by the sibling module (from ._cache import Counter)
+            parts = self.module.imports[ln].lstrip('.').split('.')
+            if len(parts) >= 2 and parts[-2] in self.module.repo.modules:
+                cands = self.module.repo.modules[parts[-2]].classes_by_name.get(parts[-1], [])
+        if cands:
+            ci = cands[0]
             if 'dict' in ci.base_names() and '__missing__' in ci.methods:
                 body = [s for s in ci.methods['__missing__'].node.body
                         if not (isinstance(s, ast.Expr) and isinstance(s.value, ast.Constant))]
@@ -200,6 +206,14 @@ class WrapperModel(Model):
             self._lock_count(f[1], st, +1, line)
             outs.append(R(st, C(True)))
             return outs
+        # --- getattr(obj, 'name'[, default]) is obj.name (with a default: never an AttributeError)
+        if f == ('lib', 'getattr') and len(args) in (2, 3) and not kws and is_const(args[1]) and isinstance(args[1][1], str):
+            rs = self.attr_load(args[0], args[1][1], st, node)
+            if rs is None:
+                return [R(st, ('attr', args[0], args[1][1]))]
+            if len(args) == 3:
+                rs = [r for r in rs if r.exc is None] or [R(st, args[2])]
+            return rs
         # --- hash(key): raises TypeError for an unhashable key (a probe such as `try: hash(key) / except TypeError: key = str(key)`)
         if f == ('lib', 'hash') and len(args) == 1 and not kws:
             outs = []
@@ -867,6 +881,8 @@ class WrapperModel(Model):
             a.emit('ASSUME', (C(key), C(True)), line)
             b.emit('ASSUME', (C(key), C(False)), line)
             return [(a, True), (b, False)]
+        if val[0] == 'call' and val[1] == ('lib', 'bool') and len(val[2]) == 1 and not val[3] and is_bk(val[2][0]):
+            return self.truth(val[2][0], st, node)       # recent = bool(queue); if recent: ...
         if is_bk(val, 'deque') or is_bk(val, 'counter') or is_bk(val, 'odict'):
             ne = val in st.facts.get('nonempty', set())
             if ne:
@@ -877,6 +893,12 @@ class WrapperModel(Model):
             b.facts.setdefault('knownempty', set()).add(val)
             b.emit('BKTEST', (val, C(False)), line)
             return [(a, True), (b, False)]
+        # a number with a known lower bound compared with a constant: max(2, maxsize // 10) > 0 is true
+        if val[0] == 'cmp' and val[1] in ('>', '>=') and is_const(val[3]) and isinstance(val[3][1], int) and not isinstance(val[3][1], bool):
+            lb = lower_bound(val[2])
+            if lb is not None and ((val[1] == '>' and lb > val[3][1]) or (val[1] == '>=' and lb >= val[3][1])):
+                st.emit('BRANCH', (val, C(True)), line, extra={'decided': True})
+                return [(st, True)]
         # len(cache) compared with a constant: decided by the size fact when possible
         if val[0] == 'cmp' and val[1] in ('>', '>=', '<', '<=') :
             d = self.decide_len_cmp(val, st)
